@@ -156,6 +156,13 @@ func scenC12(k *K) {
 	}
 	k.Settle(30*time.Second, 1500, nil)
 	check("after-payloads")
+	// the replication status is part of a replica's state: W is the only writer, so no
+	// database of R can have been told of more entries than W's log of it holds
+	for _, d := range dbs {
+		if m, n := d.r.ReplicationStatus().GetMax(), len(LogValues(d.w)); m > n {
+			k.Failf("C12/state-changed", "after the hostile payloads R reports a replication maximum of %d (progress %d) for %s, whose only writer has written %d entries", m, d.r.ReplicationStatus().GetProgress(), short(d.addr), n)
+		}
+	}
 	// a valid message sent afterwards is handled, for each of R's databases
 	for _, d := range dbs {
 		val := write(d.w, peers[0].Node.Idx)
@@ -329,7 +336,7 @@ func c12Payload(k *K, addr string, captured [][]byte) (string, []byte) {
 		}
 		return append([]byte(nil), captured[k.C.Intn(len(captured))]...)
 	}
-	switch k.C.Intn(9) {
+	switch k.C.Intn(10) {
 	case 0:
 		n := k.C.Range(0, 300)
 		b := make([]byte, n)
@@ -403,6 +410,16 @@ func c12Payload(k *K, addr string, captured [][]byte) (string, []byte) {
 	case 6:
 		d := k.C.Range(100, 3000)
 		return "deep-nesting", []byte(`{"address":"` + addr + `","heads":` + strings.Repeat("[", d) + strings.Repeat("]", d) + `}`)
+	case 8:
+		// a genuine announcement of one database under the address of another (or of the
+		// same: then it is just a relay)
+		var msg map[string]interface{}
+		if err := json.Unmarshal(real(), &msg); err == nil {
+			msg["address"] = addr
+			b, _ := json.Marshal(msg)
+			return "cross-addressed", b
+		}
+		return "empty", []byte{}
 	case 7:
 		var msg map[string]interface{}
 		if err := json.Unmarshal(real(), &msg); err == nil {
